@@ -1020,7 +1020,7 @@ class Check(PropertyCheck):
         V, info, n = [], {}, 0
         # (a) determinism: same region lists, fresh interpreters, different PYTHONHASHSEED
         gen = random.Random(rng.randrange(1 << 60))
-        cases = [c for c in self.generate(gen, 'quick')[:60 if tier == 'quick' else 400]]
+        cases = self.corpus() + [c for c in self.generate(gen, 'quick')[:60 if tier == 'quick' else 400]]
         path = os.path.join('/tmp', f'c09_det_{os.getpid()}.json')
         with open(path, 'w') as f:
             json.dump(cases, f)
